@@ -40,6 +40,12 @@ def opFirmCheck : Op := fun j => do
   let alpha ← fFl j "alpha"; let ws ← fFlList j "weights"; let d ← fFl j "d"; let mode ← fStr j "mode"
   pure <| outBool (Model.Firm.firmRaises nt nw alpha ws d mode)
 
+/-- the documented domain of `firm`'s parameters (Spec): `true` = inside, must not raise -/
+def opFirmDomain : Op := fun j => do
+  let nt ← fNat j "nt"; let nw ← fNat j "nw"
+  let alpha ← fFl j "alpha"; let ws ← fFlList j "weights"; let d ← fFl j "d"; let mode ← fStr j "mode"
+  pure <| outBool (Spec.Firm.firmDomain nt nw alpha ws d mode)
+
 def getRow (j : Json) : R (Fl × List Fl) := do
   let a ← getArr j
   match a.toList with
@@ -56,6 +62,9 @@ def opRm : Op := fun j => do
 
 def opRmCheck : Op := fun j => do
   pure <| outBool (Model.Firm.rmRaises (← fFlList j "fcst") (← fFlList j "obs") (← fFlList j "probs") (← fStr j "mode"))
+
+def opRmDomain : Op := fun j => do
+  pure <| outBool (Spec.Firm.rmDomain (← fFlList j "fcst") (← fFlList j "obs") (← fFlList j "probs") (← fStr j "mode"))
 
 def opMw : Op := fun j => do
   let M ← fFlMat j "M"
@@ -84,6 +93,6 @@ def opScalingCheck : Op := fun j => do
 
 def ops : OpTable := [("c12.firm", opFirm), ("c12.firm_spec", opFirmSpec), ("c12.firm_check", opFirmCheck),
   ("c12.rm", opRm), ("c12.rm_check", opRmCheck), ("c12.mw", opMw), ("c12.scaling", opScaling),
-  ("c12.scaling_check", opScalingCheck)]
+  ("c12.scaling_check", opScalingCheck), ("c12.firm_domain", opFirmDomain), ("c12.rm_domain", opRmDomain)]
 
 end SV.Driver.C12
